@@ -283,6 +283,40 @@ theorem removeSubCore_idx_keep (cfg : Cfg) (s : State) (u : Nat) (t : Int) (m : 
       · exact ⟨h, fun hh => hk hh.2⟩
       · exact ⟨h, fun hh => hk.1 hh.1⟩
 
+theorem addSubCore_uids (cfg : Cfg) (s : State) (u : Nat) (t : Int) :
+    (addSubCore cfg s u t).mods.map (·.uid) = s.mods.map (·.uid) ∧ (addSubCore cfg s u t).nextDyn = s.nextDyn := by
+  unfold addSubCore; dsimp only
+  split
+  · exact ⟨uids_upd _ u _ (fun _ => rfl), rfl⟩
+  · split
+    · exact ⟨rfl, rfl⟩
+    · exact ⟨uids_upd _ u _ (fun _ => rfl), rfl⟩
+
+theorem removeSubCore_uids (cfg : Cfg) (s : State) (u : Nat) (t : Int) :
+    (removeSubCore cfg s u t).mods.map (·.uid) = s.mods.map (·.uid) ∧ (removeSubCore cfg s u t).nextDyn = s.nextDyn := by
+  unfold removeSubCore; dsimp only
+  split
+  · exact ⟨uids_upd _ u _ (fun _ => rfl), rfl⟩
+  · split
+    · exact ⟨rfl, rfl⟩
+    · exact ⟨uids_upd _ u _ (fun _ => rfl), rfl⟩
+
+/-- a rewrite of `subs` only keeps the model invariants -/
+theorem minv_subs {cfg : Cfg} {s s' : State} {u : Nat} (h : MInvOn (fun _ => True) cfg s) (hu0 : u ≠ 0) (l : List Int)
+    (huids : s'.mods.map (·.uid) = s.mods.map (·.uid))
+    (hfind : ∀ v, s'.find v = (s.find v).map (fun m => if m.uid == u then { m with subs := l } else m))
+    (hd : s'.nextDyn = s.nextDyn) : MInvOn (fun _ => True) cfg s' := by
+  refine minv_close (minv_find (fm := fun m => { m with subs := l }) h hu0 huids hfind hd) (fun m' hm' hc => ?_)
+  rw [hfind] at hm'
+  cases h0 : s.find u with
+  | none => simp [h0] at hm'
+  | some x =>
+    simp only [h0, Option.map_some, Option.some.injEq] at hm'
+    subst hm'
+    split at hc <;> rename_i hx
+    · simp only [hx, if_true]; exact h.unconn u x trivial h0 hc
+    · simp only [hx, Bool.false_eq_true, if_false]; exact h.unconn u x trivial h0 hc
+
 /-- the table update of a subscription request keeps the simulation -/
 theorem subCore_sim {cfg : Cfg} {a : A} {s : State} (hs : Sim cfg a s) (u : Nat) (hu0 : u ≠ 0) (t : Int) (add : Bool)
     (m : Module) (hm : s.find u = some m) :
@@ -305,6 +339,7 @@ theorem subCore_sim {cfg : Cfg} {a : A} {s : State} (hs : Sim cfg a s) (u : Nat)
     obtain ⟨h1, h2, h3, h4, h5, _⟩ := addSubCore_misc cfg s u t
     refine sim_upd_find hs u _ (fun x => { x with subs := addSubsOf cfg t m.subs }) huid hal
       (addSubCore_find cfg s u t m hm) h1 h2 h3 h4 h5 ?_ ?_
+      (minv_subs hs.minv hu0 _ (addSubCore_uids cfg s u t).1 (addSubCore_find cfg s u t m hm) (addSubCore_uids cfg s u t).2)
       (fun am m' _ hm' h => by rw [hm] at hm'; cases hm'; exact simMod_add t h) (fun _ => rfl) (fun _ => rfl)
     · intro v m' t' hm' ht'
       rw [addSubCore_find cfg s u t m hm] at hm'
@@ -363,6 +398,8 @@ theorem subCore_sim {cfg : Cfg} {a : A} {s : State} (hs : Sim cfg a s) (u : Nat)
     obtain ⟨h1, h2, h3, h4, h5, _⟩ := removeSubCore_misc cfg s u t
     refine sim_upd_find hs u _ (fun x => { x with subs := rmSubsOf cfg t m.subs }) huid hal
       (removeSubCore_find cfg s u t m hm) h1 h2 h3 h4 h5 ?_ ?_
+      (minv_subs hs.minv hu0 _ (removeSubCore_uids cfg s u t).1 (removeSubCore_find cfg s u t m hm)
+        (removeSubCore_uids cfg s u t).2)
       (fun am m' _ hm' h => by rw [hm] at hm'; cases hm'; exact simMod_rm t h) (fun _ => rfl) (fun _ => rfl)
     · intro v m' t' hm' ht'
       rw [removeSubCore_find cfg s u t m hm] at hm'
